@@ -100,7 +100,7 @@ CLAIMED["C10"] = dict(
 
 CLAIMED["C15"] = dict(
     text="Proof for the clauses that are algebraic identities (the rest of C15 is listed as not covered): the extracted text of the FLOAT instantiation is evaluated over the commutative ring Z/2^32 with division as multiplication by an uninterpreted inverse and sqrt uninterpreted (RETYPE), so each result is an identity of the rational expressions the code computes on every path: Plane3(p0,p1,p2) and Plane3(point, normal) have zero signed distance to their defining points, the stored normal is parallel to the given one; reflectPoint negates the signed distance and reflectPoint / reflectVector are involutions (homogeneous in N = n.n, i.e. at unit normal); intersect / intersectT are false exactly for n.dir == 0, intersect's point is line(intersectT's t), lies on the line, and on the plane up to the explicit residual (n.pos - d)(1 - (n.dir) inv(n.dir)); -plane; Line3(p0,p1) starts at p0 with direction parallel to p1 - p0; closestPointTo(point) lies on the line with the connecting segment perpendicular to the direction (homogeneous in dir.dir); project / orthogonal / reflect satisfy their vector identities.",
-    note="Partial. Trusted: clang AST + cxx2c (float instantiation differentially validated natively), cbmc SMT generation, z3 4.8.12 / z3 5.1 sum-of-monomials. Exact-arithmetic identities only: rounding ('to within rounding'), unit length of constructed normals (sqrt(x)^2 = x), the line-line functions, Sphere3, triangle intersection, plane x matrix, rotatePoint are NOT covered. Line3::distanceTo(point) == length of closestPointTo(point) - point, and closestVertex(v0,v1,v2,line) == the first vertex of minimal squared distance to the line, are decided on the same extracted text. Seen while reading, outside these obligations and not repaired: Line3::distanceTo(Line3) omits the division by |d1 x d2| (findings/C15_line_distanceTo_line_demo.cpp).",
+    note="Partial. Trusted: clang AST + cxx2c (float instantiation differentially validated natively), cbmc SMT generation, z3 4.8.12 / z3 5.1 sum-of-monomials. Exact-arithmetic identities only: rounding ('to within rounding'), unit length of constructed normals (sqrt(x)^2 = x), the line-line functions, Sphere3, triangle intersection, plane x matrix, rotatePoint are NOT covered. Line3::distanceTo(point) == length of closestPointTo(point) - point, and closestVertex(v0,v1,v2,line) == a vertex of minimal squared distance to the line (ties unconstrained), are decided on the same extracted text. Seen while reading, outside these obligations and not repaired: Line3::distanceTo(Line3) omits the division by |d1 x d2| (findings/C15_line_distanceTo_line_demo.cpp).",
     technique="polynomial identities over Z/2^32 on the extracted float instantiation with the element type reinterpreted (RETYPE: inverse and sqrt uninterpreted), cbmc --z3 --outfile + z3 sum-of-monomials",
     ref="6/C15, 10.1, 10.3")
 
